@@ -154,6 +154,27 @@ Proof.
   - exists q'. exact R.
 Qed.
 
+(* ... and with any files on the disk at the start: file operations are requests to the world like input and output *)
+Theorem machine_implements_spec_fs fuel prog stdin disk h' w' r d :
+  spec_main_fs fuel prog stdin disk = Done h' w' r d ->
+  exists q', reach (1 + d) (m_heap (init_fs prog stdin disk)) (PositiveMap.empty _) (m_stack (init_fs prog stdin disk)) (m_world (init_fs prog stdin disk))
+                   h' q' [Fr None (retc r) []] w'.
+Proof.
+  unfold spec_main_fs, init_fs. destruct (alloc heap0 prog {| funs := []; args := [] |}) as [h t] eqn:Al. cbn [m_heap m_stack m_world].
+  intros Hs. destruct (sim_all fuel) as (_ & HC & _).
+  assert (Hinv : inv h []).
+  { assert (h = fst (alloc heap0 prog {| funs := []; args := [] |})) by (rewrite Al; auto). subst h.
+    apply inv_alloc. split; [|split].
+    - intros x _. unfold get; simpl. apply PositiveMap.gempty.
+    - intros x cl v Gx. unfold get in Gx; simpl in Gx. rewrite PositiveMap.gempty in Gx. discriminate.
+    - intros x []. }
+  destruct (HC _ _ _ _ _ _ _ _ Hs Hinv) as (G & _ & _).
+  destruct (G (PositiveMap.empty _) None [] []) as (q' & R & _).
+  - intros a b L. unfold rlook in L. rewrite PositiveMap.gempty in L. discriminate.
+  - exists q'. exact R.
+Qed.
+
+
 (* the machine WITH the explicit limit (interpret.py's MAX_STACK_SIZE): if the demand depth fits, it never reports Limit
    and finishes exactly like the specification *)
 Fixpoint lsteps (n:nat) (s:mstate) : mstate + outcome :=
